@@ -176,9 +176,14 @@ func loadProgram(repo string, patterns []string, specDir string) (*Program, erro
 func (p *Program) addFunc(path string, f *ssa.Function) {
 	key := path + "." + f.RelString(f.Pkg.Pkg)
 	p.funcs[key] = f
-	for _, an := range f.AnonFuncs {
-		p.funcs[path+"."+an.RelString(f.Pkg.Pkg)] = an
+	var addAnon func(g *ssa.Function)
+	addAnon = func(g *ssa.Function) {
+		for _, an := range g.AnonFuncs {
+			p.funcs[path+"."+an.RelString(f.Pkg.Pkg)] = an
+			addAnon(an) // function literals nested in function literals
+		}
 	}
+	addAnon(f)
 }
 
 // lookupType resolves "pkg.T" or "*pkg.T" by short package name.
